@@ -559,6 +559,9 @@ PROPS = {
             "C04_fresh_state_inv", "C04_cyclic_table_aborts", "C04_cyclic_heap_not_acyclic",
             "C04_step_keeps_acyclic", "C04_set_property_ranked", "C04_append_table_ranked",
             "C04_wellformed_code_ok", "C04_compiled_run_no_abort",
+            "C04_step_keeps_natives_simple", "C04_nested_run_contract", "C04_checked_run_no_abort", "C04_run_agrees",
+            "C04_run_no_abort_unless_check", "C04_run_no_abort_flat_tables",
+            "C04_checked_run_nested_ok", "C04_checked_run_cyclic_stops",
         ]},
         n_quick=200, n_thorough=2000,
         gen_timeout=3000,
@@ -623,7 +626,20 @@ PROPS = {
             "follows from C10 wellformed (C04_wellformed_code_ok, C04_compiled_run_no_abort). The model's == has a "
             "recursion fuel of 24: tables nested 23 or more levels deep count as an abort in the model although the "
             "crate only overflows its native stack at a much larger depth (the model is pessimistic there). "
-            "C04VmProofs.v's header lists every abort site of Vm.v with its final status",
+                        "HYPOTHESIS-FREE FORM (C04VmChecked.v, C04VmAgree.v, C04VmFinal.v): the CHECKED VM = Vm.v plus runtime "
+            "checks that stop a run with OAbort AUnmodelled (chk_store: SetProperty / AppendTable never store a table as "
+            "key or value; chk_foreach: ForEach counter >= 0 in Debug; chk_reg: a captured enclosing upvalue exists; "
+            "chk_native: CallNative is not __min / __max / __sort; chk_return: Return runs with >= 2 frames; nesting of "
+            "runs < 130). C04_nested_run_contract proves the contract of nested runs (reenter_ok) by induction over the "
+            "nesting depth; C04_checked_run_no_abort: the checked VM aborts in no other way, with NO hypothesis about "
+            "intermediate states; C04_run_agrees: a run on which no check fails is the checked run; together "
+            "C04_run_no_abort_flat_tables: Vm::run of a compiled program (static condition native_pointers_simple: no "
+            "NativeFunctionPointer names a native that calls back; natives_simple is then an invariant, "
+            "C04_step_keeps_natives_simple) never aborts on a run on which no check fails. Left as checks, not proved: "
+            "that compiled programs never fail chk_foreach / chk_reg, that nested runs never fail chk_return and that "
+            "the call stack (256 frames) keeps the nesting below 130; __min / __max / __sort are not shown to keep the "
+            "heap acyclic",
+"C04VmProofs.v's header lists every abort site of Vm.v with its final status",
             "native stack exhaustion and aborts are runtime behaviour: observed per child process, not derivable from the "
             "models (DESIGN section 9); card nesting deeper than the loaders admit is outside the property (class 14)",
             "serde_yaml needs time quadratic in the nesting depth before it reports its recursion limit (100 000 open "
